@@ -18,7 +18,7 @@ TARGET = dict(
     execs=[dict(name="lin", harness="harness/C07_lin.c", repo=[], engine=_SCHED, san="none",
                 extra=dict(quick=[["enum", "--template", t, "--bound", "3"] for t in _TEMPLATES],
                            thorough=[["enum", "--template", t, "--bound", "4"] for t in _TEMPLATES]))],
-    quick=dict(cases=250000, budget=35), thorough=dict(cases=2000000, budget=420),
+    quick=dict(cases=500000, budget=35), thorough=dict(cases=2000000, budget=420),
 )
 META = dict(
     technique="systematic concurrency testing: deterministic coroutine scheduler over the real lock-free code (yield hooks at every atomic and ring-element access), random / PCT / exhaustively enumerated bounded-preemption schedules, Wing-Gong linearizability checking",
